@@ -20,7 +20,7 @@ func runC13(w *World) *Result {
 	r := NewResult("C13")
 	r.Explanation = "Decides structural conditions of totality over the library packages (SSA): (assert) every non-comma-ok type assertion is dominated by a test of the value's StatementType() against the tag the asserted type returns, or every producer of the value constructs that type; (index) every slice/string index and slice expression is discharged by a range bound, a dominating length guard, a constant array, or a reviewed producer/protocol argument listed with its reason – anything else is reported; (rec) every call-graph cycle is structural recursion that consumes tokens, except recursion through file loading which must pass a membership test on a threaded set; (result) Transpile returns the empty script on every error path, no explicit panic is reachable from it, every constructed error has a non-empty message."
 	r.NotDecided = "resource exhaustion on pathological sizes (the un-memoised closure over the call graph is exponential on diamond-shaped call chains); panics inside the standard library; termination of the lexer's scanning loops (their progress argument is path-sensitive: a probe that matches the empty string would need execution to exclude). The index rule is a reviewed obligation list: a new unguarded index is reported even if a human could argue it safe."
-	r.Rule("R-C13-assert", "type assertions guarded by the matching tag test or by producer types", 40)
+	r.Rule("R-C13-assert", "type assertions guarded by the matching tag test or by producer types", 15)
 	r.Rule("R-C13-index", "index/slice expressions discharged by range, guard, constant array or reviewed argument", 30)
 	r.Rule("R-C13-rec", "recursion consumes input or is guarded by a visited set consulted for the very value handed to the recursive load", 2)
 	r.Rule("R-C13-result", "error ⇒ empty script; no explicit panic; non-empty error messages", 10)
@@ -160,6 +160,36 @@ func tagHolds(x ssa.Value, blk *ssa.BasicBlock) map[string]bool {
 			continue
 		}
 		check(c)
+	}
+	if len(out) == 0 {
+		// a case with several tags (case A, B:): the block is entered from the true side of one
+		// test per tag, and from nowhere else
+		for d := blk; d != nil; d = d.Idom() {
+			if len(d.Preds) < 2 {
+				continue
+			}
+			alts := map[string]bool{}
+			okAll := true
+			for _, p := range d.Preds {
+				c, neg := condOf(p)
+				bo, isBo := c.(*ssa.BinOp)
+				if !isBo || neg || bo.Op != token.EQL || len(p.Succs) != 2 || p.Succs[0] != d {
+					okAll = false
+					break
+				}
+				call, isCall := bo.X.(*ssa.Call)
+				k, isK := bo.Y.(*ssa.Const)
+				if !isCall || !isK || !call.Call.IsInvoke() || call.Call.Method.Name() != "StatementType" || call.Call.Value != x || k.Value == nil || k.Value.Kind() != constant.String {
+					okAll = false
+					break
+				}
+				alts[constant.StringVal(k.Value)] = true
+			}
+			if okAll && len(alts) > 0 {
+				return alts
+			}
+			break
+		}
 	}
 	return out
 }
@@ -314,6 +344,30 @@ func c13Assert(w *World, r *Result) {
 						}
 						sort.Strings(names)
 						r.Bad(rule, key, pos, fmt.Sprintf("asserts %s but the producers of the value construct %v", tname, names))
+						continue
+					}
+					if iface, isIface := ta.AssertedType.Underlying().(*types.Interface); isIface && len(holds) > 0 {
+						// an assertion to an interface under a tag test: every node type that carries one of
+						// the established tags implements the interface
+						okAll, n := true, 0
+						var missing []string
+						for tn, tg := range tagOf {
+							if !holds[tg] {
+								continue
+							}
+							n++
+							obj := w.Pkgs["parser"].Types.Scope().Lookup(tn)
+							if obj == nil || !(types.Implements(obj.Type(), iface) || types.Implements(types.NewPointer(obj.Type()), iface)) {
+								okAll = false
+								missing = append(missing, tn)
+							}
+						}
+						if okAll && n > 0 {
+							r.Ok(rule, key, pos, fmt.Sprintf("dominated by tag tests; every node type with one of those tags implements %s", tname))
+							continue
+						}
+						sort.Strings(missing)
+						r.Bad(rule, key, pos, fmt.Sprintf("asserts the interface %s under tag tests that also admit %v, which do not implement it", tname, missing))
 						continue
 					}
 					if _, isIface := ta.AssertedType.Underlying().(*types.Interface); isIface {
@@ -974,7 +1028,43 @@ func pairedNodeLists(w *World, fn *ssa.Function, a, b ssa.Value) bool {
 		}
 		return namedName(callee.Signature.Recv().Type()), callee.Name(), c.Call.Args[0], true
 	}
+	// the same pair of accessors called through an interface that only assignment nodes with
+	// lists of equal length implement
+	ifacePair := func(x, y ssa.Value) bool {
+		cx, ok1 := x.(*ssa.Call)
+		cy, ok2 := y.(*ssa.Call)
+		if !ok1 || !ok2 || !cx.Call.IsInvoke() || !cy.Call.IsInvoke() || !(cx.Call.Value == cy.Call.Value || rootOf(cx.Call.Value, 0) == rootOf(cy.Call.Value, 0)) {
+			return false
+		}
+		iface, ok := cx.Call.Value.Type().Underlying().(*types.Interface)
+		if !ok {
+			return false
+		}
+		mx, my := cx.Call.Method.Name(), cy.Call.Method.Name()
+		n := 0
+		for _, name := range w.Pkgs["parser"].Types.Scope().Names() {
+			tn, ok := w.Pkgs["parser"].Types.Scope().Lookup(name).(*types.TypeName)
+			if !ok {
+				continue
+			}
+			if _, isI := tn.Type().Underlying().(*types.Interface); isI {
+				continue
+			}
+			if !types.Implements(tn.Type(), iface) && !types.Implements(types.NewPointer(tn.Type()), iface) {
+				continue
+			}
+			n++
+			p, ok := equalLengthAccessors[tn.Name()]
+			if !ok || !((mx == p[0] && my == p[1]) || (mx == p[1] && my == p[0])) {
+				return false
+			}
+		}
+		return n > 0
+	}
 	pair := func(x, y ssa.Value) bool {
+		if ifacePair(x, y) {
+			return true
+		}
 		nx, mx, rx, ok1 := acc(x)
 		ny, my, ry, ok2 := acc(y)
 		if !ok1 || !ok2 || nx != ny || !(rx == ry || rootOf(rx, 0) == rootOf(ry, 0)) {
